@@ -16,6 +16,7 @@ Decides:
                over; only strict()/non_strict() set it, each to its own constant.
  C completion  when completing, "only a positional can stand here" is decided by the item BEFORE the word being completed (a PosWord there),
                never by the spelling or kind of the word itself (shared with C14).
+ R restore (b)     fallback / fallback_with put the pre-attempt state back when they absorb a failure (NonStrictPos is raised after the word was taken).
 Does not decide: which candidates completion offers (C14)."""
 import re
 from core import *
